@@ -8,6 +8,22 @@
 #include <xercesc/validators/schema/SchemaSymbols.hpp>
 using namespace xv;
 static bool g_init = false;
+// the string-level targets take UTF-16 strings from strictly valid UTF-8 only: lone surrogates are not text (and only reachable through the raw API)
+static bool validUtf8(const std::string& s) {
+    size_t i = 0, n = s.size();
+    while (i < n) {
+        unsigned c = (unsigned char)s[i]; int k; unsigned cp;
+        if (c < 0x80) { i++; continue; }
+        else if (c >= 0xC2 && c <= 0xDF) { k = 1; cp = c & 0x1F; }
+        else if (c >= 0xE0 && c <= 0xEF) { k = 2; cp = c & 0x0F; }
+        else if (c >= 0xF0 && c <= 0xF4) { k = 3; cp = c & 0x07; }
+        else return false;
+        for (int j = 1; j <= k; j++) { if (i + j >= n) return false; unsigned t = (unsigned char)s[i + j]; if ((t & 0xC0) != 0x80) return false; cp = (cp << 6) | (t & 0x3F); }
+        if ((k == 2 && (cp < 0x800 || (cp >= 0xD800 && cp <= 0xDFFF))) || (k == 3 && (cp < 0x10000 || cp > 0x10FFFF))) return false;
+        i += k + 1;
+    }
+    return true;
+}
 static void die(const char* why) { fprintf(stderr, "\n==XV-ORACLE== %s\n", why); fflush(stderr); __builtin_trap(); }
 extern "C" int LLVMFuzzerTestOneInput(const uint8_t* data, size_t size) {
     if (!g_init) { g_init = true; XMLPlatformUtils::Initialize(); }
@@ -17,6 +33,7 @@ extern "C" int LLVMFuzzerTestOneInput(const uint8_t* data, size_t size) {
     unsigned ver = fdp.ConsumeIntegralInRange<unsigned>(0, 1);
     unsigned what = fdp.ConsumeIntegralInRange<unsigned>(0, 3);
     std::string s = fdp.ConsumeRemainingBytesAsString();
+    if (!validUtf8(s)) return 0;
     X xs(s);
     XSValue::Status st = XSValue::st_Init;
     try {
